@@ -1443,6 +1443,8 @@ class optical_signal(electrical_signal):
                         noise = noise[np.newaxis]
                 else:
                     signal = np.array([[signal], [signal]])
+                    if noise is not None:
+                        noise = np.array([[noise], [noise]])
             
             elif signal.ndim == 1:
                 if n_pol is None:
